@@ -9,6 +9,9 @@ def main():
         build_core()
         build_els()
         stage_erg_path()
+        # the erg binary with the `parallel` feature off (C19)
+        from .props.c19 import build_seq
+        build_seq()
     except ToolError as e:
         log(f"setup failed: {e}")
         sys.exit(2)
